@@ -1,0 +1,71 @@
+//go:build verif
+
+package internal
+
+// Contracts for the deductive verifier in /verif (comment-only file; no code).
+
+//@ guarded timeoutDelimitedReader: prefixDone, bytesRead by mu
+
+// read(k) returns exactly the next k bytes of the stream, however the underlying reader
+// chunks them; a stream that ends before the first byte gives io.EOF (clean end), one that
+// ends after some but not all bytes gives an error that is not io.EOF (unexpected end).
+//@ func (*timeoutDelimitedReader).read
+//@   requires r != nil && r.in != nil && numBytes >= 0 && !held[r.mu] && rdPos[r.in] >= 0
+//@   modifies rdPos, held, timeoutDelimitedReader.bytesRead
+//@   ensures !held[r.mu]
+//@   ensures @data result_1 == nil ==> len(result_0) == numBytes && fresh(result_0) && rdPos[r.in] == old(rdPos[r.in]) + numBytes &&
+//@       (forall i int :: 0 <= i && i < numBytes ==> result_0[i] == rdStream[r.in][old(rdPos[r.in]) + i])
+//@   ensures @cleaneof result_1 != nil && errIs(result_1, io.EOF) ==> rdPos[r.in] == old(rdPos[r.in]) && rdPos[r.in] == len(rdStream[r.in])
+//@   ensures @truncated result_1 != nil && rdPos[r.in] > old(rdPos[r.in]) ==> !errIs(result_1, io.EOF)
+//@   ensures @progress rdPos[r.in] >= old(rdPos[r.in]) && rdPos[r.in] <= old(rdPos[r.in]) + numBytes
+//@   ensures forall q io.Reader :: q != r.in ==> rdPos[q] == old(rdPos[q])
+//@   loop 0: invariant 0 <= offs && offs <= numBytes && len(data) == numBytes && fresh(data) && !held[r.mu]
+//@           invariant rdPos[r.in] == old(rdPos[r.in]) + offs
+//@           invariant forall q io.Reader :: q != r.in ==> rdPos[q] == old(rdPos[q])
+//@           invariant forall i int :: 0 <= i && i < offs ==> data[i] == rdStream[r.in][old(rdPos[r.in]) + i]
+
+// big-endian value of the four bytes of s starting at i, and the four-byte encoding of n
+//@ spec be32At(s string, i int) int = s[i] * 16777216 + s[i+1] * 65536 + s[i+2] * 256 + s[i+3]
+//@ spec be32(n int) string = str1(n / 16777216) + str1((n / 65536) % 256) + str1((n / 256) % 256) + str1(n % 256)
+
+// The writer emits a 4-byte big-endian length prefix followed by the payload.
+//@ func writeDelimitedMessageRaw
+//@   requires out != nil && len(data) <= 4294967295 //# resource assumption: messages shorter than 4 GiB
+//@   modifies wrOut
+//@   ensures result == nil ==> streq(wrOut[out], old(wrOut[out]) + be32(len(data)) + bytes(data))
+//@   ensures forall w io.Writer :: w != out ==> wrOut[w] == old(wrOut[w])
+
+// The reading goroutine: decodes the prefix big-endian; a size above the limit is an error
+// and nothing beyond the prefix is consumed (no buffer of that size is allocated); a clean
+// end after a complete prefix becomes an unexpected end; otherwise the message is exactly
+// the next size bytes.
+//@ func (*timeoutDelimitedReader).readDelimitedMessageRaw$1
+//@   requires r != nil && r.in != nil && !held[r.mu] && rdPos[r.in] >= 0 && readDone != nil
+//@   modifies rdPos, held, timeoutDelimitedReader.bytesRead, timeoutDelimitedReader.prefixDone, timeoutDelimitedReader.bytesExpecting, *error, *[]byte
+//@   ensures @message readErr == nil ==> rdPos[r.in] == old(rdPos[r.in]) + 4 + be32At(rdStream[r.in], old(rdPos[r.in])) &&
+//@       len(msgBytes) == be32At(rdStream[r.in], old(rdPos[r.in])) && be32At(rdStream[r.in], old(rdPos[r.in])) <= r.maxSize &&
+//@       (forall i int :: 0 <= i && i < len(msgBytes) ==> msgBytes[i] == rdStream[r.in][old(rdPos[r.in]) + 4 + i])
+//@   ensures @oversize rdPos[r.in] >= old(rdPos[r.in]) + 4 && be32At(rdStream[r.in], old(rdPos[r.in])) > r.maxSize ==> readErr != nil && rdPos[r.in] == old(rdPos[r.in]) + 4
+//@   ensures @truncated readErr != nil && rdPos[r.in] > old(rdPos[r.in]) &&
+//@       !(rdPos[r.in] == old(rdPos[r.in]) + 4 && be32At(rdStream[r.in], old(rdPos[r.in])) > r.maxSize) ==> !errIs(readErr, io.EOF)
+//@   ensures @cleaneof readErr != nil && errIs(readErr, io.EOF) && rdPos[r.in] != old(rdPos[r.in]) + 4 ==> rdPos[r.in] == old(rdPos[r.in]) && rdPos[r.in] == len(rdStream[r.in])
+//@   //# (the size-limit error is built by fmt.Errorf, about which only "non-nil" is assumed; hence the exclusion of the position right after the prefix)
+
+// Peer-side binary stream decoder: one message = 4-byte big-endian length + that many bytes;
+// a clean end between messages is io.EOF with nothing consumed, an end inside a prefix or a
+// message is an error that is not io.EOF.
+//@ func (*protoDecoder).DecodeNext
+//@   requires p != nil && p.in != nil && rdPos[p.in] >= 0
+//@   modifies rdPos
+//@   ensures @consumed result == nil ==> rdPos[p.in] == old(rdPos[p.in]) + 4 + be32At(rdStream[p.in], old(rdPos[p.in]))
+//@   ensures @cleaneof result != nil && errIs(result, io.EOF) && rdPos[p.in] < old(rdPos[p.in]) + 4 ==> rdPos[p.in] == old(rdPos[p.in]) && rdPos[p.in] == len(rdStream[p.in])
+//@   ensures @truncated result != nil && rdPos[p.in] > old(rdPos[p.in]) && rdPos[p.in] < old(rdPos[p.in]) + 4 + be32At(rdStream[p.in], old(rdPos[p.in])) ==> !errIs(result, io.EOF)
+
+//@ func (*protoEncoder).Encode
+//@   requires p != nil && p.out != nil
+//@   modifies wrOut
+//@   ensures forall w io.Writer :: w != p.out ==> wrOut[w] == old(wrOut[w])
+
+//@ func (*jsonEncoder).Encode
+//@   requires j != nil && j.out != nil
+//@   modifies wrOut
